@@ -249,6 +249,8 @@ def ops(bd):
         for j in range(len(act)):
             for b in (1, 2):
                 out.append(("sample", b, j, "pos" if (b + j) % 2 else "kw"))
+        if 0 <= bd.sel < len(bufs) and bufs[bd.sel].current_len == 0:
+            out.append(("badadd",))  # an addition the (still empty) task buffer rejects: the task must not become eligible for sampling
     return out
 
 
@@ -316,6 +318,14 @@ def apply(bd, op):
                 col.violation(SIG.format(entry, "add-changed-unselected-task"), dict(hist=hist, task=u))
         check_content(bd, t, entry + ".add_sample", hist)
         return ("add", t)
+    if op[0] == "badadd":
+        col.tick(1)
+        try:
+            bd.buf.add_sample(**{"no_such_field_of_this_buffer": np.float32(1.0)})
+            col.outcome("additions_with_an_unknown_field_accepted")
+        except Exception:  # noqa: BLE001 - the rejection itself is not judged; what the buffer offers for sampling afterwards is
+            col.outcome("rejected_additions_to_an_empty_task")
+        return ("badadd",)
     if op[0] == "len":
         want = sum(len(r) for r in bd.ref)
         col.tick(1)
